@@ -360,8 +360,28 @@ class StructMachine(Machine):
                     else:
                         return None
                     continue
+                mpad = _re2.fullmatch(r"(.)?([<>])(\d+)", spec) if spec else None
+                if mpad and not isinstance(v, (TextV,)):
+                    fill = mpad.group(1) or " "
+                    width = int(mpad.group(3))
+                    try:
+                        sv = to_strz(v)
+                    except Unsupported:
+                        return None
+                    padded = sv
+                    for missing in range(1, width + 1):
+                        fs = z3.StringVal(fill * missing)
+                        padded = z3.If(z3.Length(sv) == width - missing, z3.Concat(fs, sv) if mpad.group(2) == ">" else z3.Concat(sv, fs), padded)
+                    pieces.append(LineZ(padded) if isinstance(v, (LineZ, str)) else padded)
+                    continue
                 if spec != "":
                     return None
+                if isinstance(v, (StructV, EnumV)) or (isinstance(v, Alt) and any(isinstance(x, (StructV, EnumV)) for _, x in v.alts)):
+                    r = self.display_of(v, fr)
+                    if r is None:
+                        return None
+                    pieces.append(to_strz(r))
+                    continue
                 if isinstance(v, (TextV, LineZ)):
                     pieces.append(v)
                     continue
@@ -407,6 +427,10 @@ class StructMachine(Machine):
             else:
                 out.append(z3.StringVal(tok))
         return z3.Concat(*out) if len(out) > 1 else out[0]
+
+    def display_of(self, v, fr):
+        """`{}` of a value with a user Display impl: run its fmt and take what it writes"""
+        return None
 
     def amount_text(self, f, decimals):
         """text of an f64 rendered with a fixed number of decimals — uninterpreted (the decimal pipeline is C06's subject)"""
@@ -772,6 +796,11 @@ class StructMachine(Machine):
             if m is not None:
                 return self.invoke(m, [], fr, guard, recv.name, None, recv=recv, recv_expr=None) if not e["args"] else \
                     self.invoke(m, e["args"], fr, guard, recv.name, e.get("turbofish"), recv=recv, recv_expr=None)
+        if meth in ("min", "max") and args and (is_intterm(recv) or isinstance(recv, int)) and (is_intterm(args[0]) or isinstance(args[0], int)):
+            a, b = recv, args[0]
+            if isinstance(a, int) and isinstance(b, int):
+                return min(a, b) if meth == "min" else max(a, b)
+            return z3.If(a <= b, a, b) if meth == "min" else z3.If(a >= b, a, b)
         if meth == "serialize_str" and args:
             return Res(True, args[0], Opaque("ser-error"))
         if meth == "downcast_ref":
